@@ -121,6 +121,31 @@ async fn doc_cursor(
     Ok(None)
 }
 
+/// Resolves the identifier under the cursor inside the procedure `p`.
+/// The name in the procedure's own header denotes the procedure,
+/// even if one of its parameters or variables has the same name;
+/// everywhere else locals come before globals.
+fn lookup_ident<'a>(
+    doc: &'a AnalyzedSource,
+    p: &'a spl_frontend::table::ProcedureEntry,
+    ident: &Ident,
+) -> Option<spl_frontend::table::Entry<'a>> {
+    use spl_frontend::table::{Entry, LookupTable};
+    let is_own_name = doc
+        .tokens
+        .get(p.to_range())
+        .map_or(false, |tokens| p.name.to_text_range(tokens) == ident.range);
+    if is_own_name {
+        doc.table.lookup(&ident.value).map(Entry::from)
+    } else {
+        LookupTable {
+            global_table: Some(&doc.table),
+            local_table: Some(&p.local_table),
+        }
+        .lookup(&ident.value)
+    }
+}
+
 pub trait ToSpl {
     /// Turns input into a SPL markdown code block
     fn to_spl(&self) -> String;
